@@ -19,6 +19,9 @@ PROP = {'streams': [('c03', 250, 20000)],
               'strict_validation_sound',
               'strict_validation_sound_static',
               'impossible_policy_never_satisfied_static',
+              'strict_implies_permissive_strict',
+              "strict_implies_permissive_strict'",
+              'strict_accepted_policy_permissive_accepted',
               'strict_implies_permissive_partial',
               'strict_accepted_implies_permissive_accepted',
               'typeOf_sound_partial',
@@ -37,12 +40,14 @@ PROP = {'streams': [('c03', 250, 20000)],
                  'literals joining record, set or entity types, slots in environments without a slot type (unreachable: link_request_env types '
                  'every slot of the policy) and record literals with duplicate keys (not representable in Rust) are covered by the differential '
                  'run and the implementation-level soundness search only',
-                 'strict_implies_permissive is proved (same type and capabilities in both modes) only for the expressions whose least upper '
-                 'bounds have a flat side (`SIPFragment`: if with a syntactically flat branch, set literals of flat elements); beyond that it is '
-                 'checked on the implementation for every generated policy',
+                 'strict_implies_permissive is PROVED (same type and capabilities in both modes; policy level: same verdicts) for every '
+                 'expression of the strict fragment under SchemaWF3 (record types declared by the schema are closed with distinct keys; the '
+                 'action table is a map); without SchemaWF3 only for expressions whose least upper bounds have a flat side (`SIPFragment`); it '
+                 'is also checked on the implementation for every generated policy',
                  "the resolved ValidatorSchema is taken from Rust (schema construction is C09's subject); SchemaWF2 is assumed of it: single "
                  'entity types in attribute/tag/context types, no action attributes, no entity type named like an action type, the entity-type '
-                 'table is a map, action uids have an action type, ancestors/descendants of the action hierarchy are inverse',
+                 'table is a map, action uids have an action type, ancestors/descendants of the action hierarchy are inverse (SchemaWF3 adds: declared '
+                 'record types closed with distinct keys, action table a map)',
                  'the store is assumed to hold the action entities of the schema (ActionsPresent; Entities::from_entities(.., schema) adds them): '
                  'without it `action in Action::"group"` typed True evaluates to false',
                  'entity literals of undeclared types / actions and unknowns answer (outside-model)']}
@@ -58,7 +63,8 @@ TEXT = ('Lean model `typeOf` mirroring SingleEnvTypechecker::typecheck case by c
  'calls — under schema well-formedness SchemaWF2, conformance of request and store, presence of the action entities, bound slots; and for BOTH modes '
  'on `InFragmentM` (`typeOf_sound_partialM`: in permissive mode an if needs a syntactically flat branch, a set literal flat elements). Corollaries for both fragments: accepted => boolean or permitted error, typed False / '
  'impossible => never satisfied, and the policy-level forms over checkPolicy (the environment of a conformant request is among those '
- 'typechecked); strict => permissive with identical type and capabilities for expressions whose lubs have a flat side; a concrete '
+ 'typechecked); strict => permissive with identical type, capabilities and per-environment verdicts for every expression of the strict fragment (schemas '
+ 'with closed, distinct-key record types); a concrete '
  'schema/request/store/policy instantiates every hypothesis (non-vacuity). Permissive typing of the '
  'constructs outside `InFragmentM .permissive` is covered by the differential run (model vs Typechecker::typecheck_by_request_env per policy, environment and '
  "mode) and by the implementation-level soundness search: every strict-accepted generated policy is evaluated on conformant requests/stores (Rust's "
@@ -66,4 +72,4 @@ TEXT = ('Lean model `typeOf` mirroring SingleEnvTypechecker::typecheck case by c
  'has/hasTag guard idioms accepted) and strict-accepted => permissive-accepted on all generated policies.',
  'proof over a hand-written model: strict mode for all constructs, permissive mode for a stated smaller fragment only; the model is '
  "tied to Rust by sampling (generators in harness/src/gen_typed.rs, gen_schema.rs); the resolved schema is serialised from Rust's ValidatorSchema "
- 'and its well-formedness (SchemaWF2) is assumed; strict=>permissive is proved for a stated fragment and tested beyond it')
+ 'and its well-formedness (SchemaWF2) is assumed; strict=>permissive is proved for the strict fragment under a schema well-formedness assumption and tested on the implementation')
